@@ -6,10 +6,645 @@ import TzVerif.Spec.TzGrammar
 namespace TzVerif.Proofs
 open TzVerif.Model
 
+set_option linter.unusedSimpArgs false
+
+namespace TzReader
+open TzVerif.Spec
+
+/-! ### List helpers -/
+
+/-- `r` does not begin with a byte of class `p` -/
+def NoHead (p : Nat → Bool) (r : Bytes) : Prop := ∀ c r', r = c :: r' → p c = false
+
+@[simp] theorem noHead_nil (p : Nat → Bool) : NoHead p [] := by
+  intro c r' h; cases h
+
+@[simp] theorem noHead_cons (p : Nat → Bool) (c : Nat) (r : Bytes) : NoHead p (c :: r) ↔ p c = false := by
+  constructor
+  · intro h; exact h c r rfl
+  · intro h c' r' e; cases e; exact h
+
+theorem takeWhile_append_stop (p : Nat → Bool) (a r : Bytes) (ha : ∀ c ∈ a, p c = true)
+    (hr : NoHead p r) : (a ++ r).takeWhile p = a ∧ (a ++ r).dropWhile p = r := by
+  induction a with
+  | nil =>
+    cases r with
+    | nil => simp
+    | cons c r' => have := (noHead_cons p c r').1 hr; simp [this]
+  | cons x a ih =>
+    have hx := ha x (by simp)
+    have := ih (fun c hc => ha c (by simp [hc]))
+    simp [hx, this]
+
+theorem span_facts (p : Nat → Bool) (s : Bytes) :
+    s = s.takeWhile p ++ s.dropWhile p ∧ (∀ c ∈ s.takeWhile p, p c = true) ∧ NoHead p (s.dropWhile p) := by
+  refine ⟨(List.takeWhile_append_dropWhile).symm, ?_⟩
+  induction s with
+  | nil => simp
+  | cons x s ih =>
+    by_cases hx : p x = true
+    · simpa [hx] using ih
+    · simp [hx]
+
+/-! ### One-step behaviour of the primitive readers -/
+
+@[simp] theorem run_failure {α} (s : Bytes) : (failure : R α).run s = none := rfl
+
+theorem rByte_run_cons (c : Nat) (s : Bytes) : (rByte c).run (c :: s) = some ((), s) := by
+  simp [rByte, StateT.run_bind, StateT.run_get]
+
+theorem rByte_sound {c : Nat} {s r : Bytes} {u : Unit} (h : (rByte c).run s = some (u, r)) : s = c :: r := by
+  cases s with
+  | nil => simp [rByte, StateT.run_bind, StateT.run_get] at h
+  | cons b rest =>
+    by_cases hb : b = c
+    · subst hb; rw [rByte_run_cons] at h; simp at h; rw [h]
+    · simp [rByte, StateT.run_bind, StateT.run_get, hb] at h
+
+theorem rNum_run (s : Bytes) :
+    rNum.run s = if s.takeWhile isAsciiDigit = [] then none
+      else some (digitsValue (s.takeWhile isAsciiDigit), s.dropWhile isAsciiDigit) := by
+  simp only [rNum, StateT.run_bind, StateT.run_get]
+  by_cases h : s.takeWhile isAsciiDigit = []
+  · simp [h]
+  · simp [h]
+
+theorem rNum_complete {bh : Bytes} {v : Nat} {r : Bytes} (h : IsNum bh v) (hr : NoHead isAsciiDigit r) :
+    rNum.run (bh ++ r) = some (v, r) := by
+  obtain ⟨hne, hd, hv⟩ := h
+  obtain ⟨h1, h2⟩ := takeWhile_append_stop _ bh r hd hr
+  rw [rNum_run, h1, h2, if_neg hne, hv]
+
+theorem rNum_sound {s : Bytes} {v : Nat} {r : Bytes} (h : rNum.run s = some (v, r)) :
+    ∃ bh, s = bh ++ r ∧ IsNum bh v ∧ NoHead isAsciiDigit r := by
+  rw [rNum_run] at h
+  by_cases he : s.takeWhile isAsciiDigit = []
+  · simp [he] at h
+  · rw [if_neg he] at h
+    simp only [Option.some.injEq, Prod.mk.injEq] at h
+    obtain ⟨hv, hr⟩ := h
+    obtain ⟨f1, f2, f3⟩ := span_facts isAsciiDigit s
+    rw [hr] at f1 f3
+    exact ⟨_, f1, ⟨he, f2, hv⟩, f3⟩
+
+theorem rHms_sound {s : Bytes} {x : Hms} {r : Bytes} (h : rHms.run s = some (x, r)) :
+    ∃ b, s = b ++ r ∧ IsHms b x ∧ NoHead isAsciiDigit r := by
+  simp only [rHms, StateT.run_bind, StateT.run_get, Option.bind_eq_bind, Option.pure_def,
+    Option.bind_some] at h
+  rw [Option.bind_eq_some_iff] at h
+  obtain ⟨⟨hh, s1⟩, h1, h⟩ := h
+  obtain ⟨bh, rfl, nh, d1⟩ := rNum_sound h1
+  simp only at h
+  split at h
+  · rename_i s2
+    simp only [StateT.run_bind, rByte_run_cons, Option.bind_eq_bind, Option.bind_some,
+      StateT.run_get, Option.pure_def] at h
+    rw [Option.bind_eq_some_iff] at h
+    obtain ⟨⟨mm, s3⟩, h2, h⟩ := h
+    obtain ⟨bm, rfl, nm, d2⟩ := rNum_sound h2
+    simp only at h
+    split at h
+    · rename_i s4
+      simp only [StateT.run_bind, rByte_run_cons, Option.bind_eq_bind, Option.bind_some,
+        StateT.run_get, Option.pure_def] at h
+      rw [Option.bind_eq_some_iff] at h
+      obtain ⟨⟨ss, s5⟩, h3, h⟩ := h
+      obtain ⟨bs, rfl, ns, d3⟩ := rNum_sound h3
+      simp only [StateT.run_pure, Option.pure_def, Option.some.injEq, Prod.mk.injEq] at h
+      obtain ⟨rfl, rfl⟩ := h
+      exact ⟨bh ++ [58] ++ bm ++ [58] ++ bs, by simp, Or.inr (Or.inr ⟨bh, bm, bs, rfl, nh, nm, ns⟩), d3⟩
+    · simp only [StateT.run_pure, Option.pure_def, Option.some.injEq, Prod.mk.injEq] at h
+      obtain ⟨rfl, rfl⟩ := h
+      exact ⟨bh ++ [58] ++ bm, by simp, Or.inr (Or.inl ⟨bh, bm, rfl, nh, nm, rfl⟩), d2⟩
+  · simp only [StateT.run_pure, Option.pure_def, Option.some.injEq, Prod.mk.injEq] at h
+    obtain ⟨rfl, rfl⟩ := h
+    exact ⟨bh, rfl, Or.inl ⟨bh, rfl, nh, rfl, rfl⟩, d1⟩
+
+theorem noDigit_58 (r : Bytes) : NoHead isAsciiDigit (58 :: r) := by simp [isAsciiDigit]
+
+theorem rHms_complete {b : Bytes} {x : Hms} {r : Bytes} (h : IsHms b x)
+    (hd : NoHead isAsciiDigit r) (hc : NoHead (· == 58) r) : rHms.run (b ++ r) = some (x, r) := by
+  obtain ⟨xh, xm, xs⟩ := x
+  rcases h with ⟨bh, rfl, nh, hm, hs⟩ | ⟨bh, bm, rfl, nh, nm, hs⟩ | ⟨bh, bm, bs, rfl, nh, nm, ns⟩
+  · simp only at nh hm hs
+    subst hm hs
+    simp only [rHms, StateT.run_bind, StateT.run_get, Option.bind_eq_bind, Option.pure_def,
+      Option.bind_some, rNum_complete nh hd]
+    split
+    · simp at hc
+    · rfl
+  · simp only at nh nm hs
+    subst hs
+    have e : bh ++ [58] ++ bm ++ r = bh ++ (58 :: (bm ++ r)) := by simp
+    simp only [e, rHms, StateT.run_bind, StateT.run_get, Option.bind_eq_bind, Option.pure_def,
+      Option.bind_some, rNum_complete nh (noDigit_58 _), rByte_run_cons, rNum_complete nm hd]
+    split
+    · simp at hc
+    · rfl
+  · simp only at nh nm ns
+    have e : bh ++ [58] ++ bm ++ [58] ++ bs ++ r = bh ++ (58 :: (bm ++ (58 :: (bs ++ r)))) := by simp
+    simp only [e, rHms, StateT.run_bind, StateT.run_get, Option.bind_eq_bind, Option.pure_def,
+      Option.bind_some, rNum_complete nh (noDigit_58 _), rByte_run_cons,
+      rNum_complete nm (noDigit_58 _), rNum_complete ns hd]
+    rfl
+
+theorem isNum_head {b : Bytes} {v : Nat} (h : IsNum b v) :
+    ∃ c b', b = c :: b' ∧ isAsciiDigit c = true := by
+  obtain ⟨hne, hd, _⟩ := h
+  cases b with
+  | nil => exact absurd rfl hne
+  | cons c b' => exact ⟨c, b', rfl, hd c (by simp)⟩
+
+theorem isHms_head {b : Bytes} {x : Hms} (h : IsHms b x) :
+    ∃ c b', b = c :: b' ∧ isAsciiDigit c = true := by
+  rcases h with ⟨bh, rfl, nh, _⟩ | ⟨bh, bm, rfl, nh, _⟩ | ⟨bh, bm, bs, rfl, nh, _⟩ <;>
+  · obtain ⟨c, b', rfl, hc⟩ := isNum_head nh
+    exact ⟨c, _, by simp; rfl, hc⟩
+
+theorem isSigned_head {b : Bytes} {x : Signed} (h : IsSigned b x) :
+    ∃ c b', b = c :: b' ∧ (c = 43 ∨ c = 45 ∨ isAsciiDigit c = true) := by
+  rcases h with ⟨_, hh⟩ | ⟨r, _, rfl, _⟩ | ⟨r, _, rfl, _⟩
+  · obtain ⟨c, b', rfl, hc⟩ := isHms_head hh
+    exact ⟨c, b', rfl, Or.inr (Or.inr hc)⟩
+  · exact ⟨43, r, rfl, Or.inl rfl⟩
+  · exact ⟨45, r, rfl, Or.inr (Or.inl rfl)⟩
+
+theorem rSigned_sound {s : Bytes} {x : Signed} {r : Bytes} (h : rSigned.run s = some (x, r)) :
+    ∃ b, s = b ++ r ∧ IsSigned b x ∧ NoHead isAsciiDigit r := by
+  simp only [rSigned, StateT.run_bind, StateT.run_get, Option.bind_eq_bind, Option.pure_def,
+    Option.bind_some] at h
+  split at h
+  · rename_i s1
+    simp only [StateT.run_bind, rByte_run_cons, Option.bind_eq_bind, Option.bind_some] at h
+    rw [Option.bind_eq_some_iff] at h
+    obtain ⟨⟨y, s2⟩, h1, h⟩ := h
+    obtain ⟨b, rfl, hb, d⟩ := rHms_sound h1
+    simp only [StateT.run_pure, Option.pure_def, Option.some.injEq, Prod.mk.injEq] at h
+    obtain ⟨rfl, rfl⟩ := h
+    exact ⟨43 :: b, rfl, Or.inr (Or.inl ⟨b, rfl, rfl, hb⟩), d⟩
+  · rename_i s1
+    simp only [StateT.run_bind, rByte_run_cons, Option.bind_eq_bind, Option.bind_some] at h
+    rw [Option.bind_eq_some_iff] at h
+    obtain ⟨⟨y, s2⟩, h1, h⟩ := h
+    obtain ⟨b, rfl, hb, d⟩ := rHms_sound h1
+    simp only [StateT.run_pure, Option.pure_def, Option.some.injEq, Prod.mk.injEq] at h
+    obtain ⟨rfl, rfl⟩ := h
+    exact ⟨45 :: b, rfl, Or.inr (Or.inr ⟨b, rfl, rfl, hb⟩), d⟩
+  · simp only [StateT.run_bind, Option.bind_eq_bind] at h
+    rw [Option.bind_eq_some_iff] at h
+    obtain ⟨⟨y, s2⟩, h1, h⟩ := h
+    obtain ⟨b, rfl, hb, d⟩ := rHms_sound h1
+    simp only [StateT.run_pure, Option.pure_def, Option.some.injEq, Prod.mk.injEq] at h
+    obtain ⟨rfl, rfl⟩ := h
+    exact ⟨b, rfl, Or.inl ⟨rfl, hb⟩, d⟩
+
+theorem rSigned_complete {b : Bytes} {x : Signed} {r : Bytes} (h : IsSigned b x)
+    (hd : NoHead isAsciiDigit r) (hc : NoHead (· == 58) r) : rSigned.run (b ++ r) = some (x, r) := by
+  obtain ⟨sg, y⟩ := x
+  rcases h with ⟨hs, hh⟩ | ⟨b', hs, rfl, hh⟩ | ⟨b', hs, rfl, hh⟩
+  · simp only at hs hh
+    subst hs
+    obtain ⟨c, b', rfl, hcd⟩ := isHms_head hh
+    simp only [rSigned, StateT.run_bind, StateT.run_get, Option.bind_eq_bind, Option.pure_def,
+      Option.bind_some, List.cons_append]
+    split
+    · rename_i heq
+      simp only [List.cons.injEq] at heq
+      obtain ⟨rfl, _⟩ := heq
+      simp [isAsciiDigit] at hcd
+    · rename_i heq
+      simp only [List.cons.injEq] at heq
+      obtain ⟨rfl, _⟩ := heq
+      simp [isAsciiDigit] at hcd
+    · rw [← List.cons_append]
+      simp only [StateT.run_bind, rHms_complete hh hd hc, Option.bind_eq_bind, Option.bind_some]
+      rfl
+  · simp only at hs hh
+    subst hs
+    simp only [rSigned, StateT.run_bind, StateT.run_get, Option.bind_eq_bind, Option.pure_def,
+      Option.bind_some, List.cons_append, rByte_run_cons, rHms_complete hh hd hc]
+    rfl
+  · simp only at hs hh
+    subst hs
+    simp only [rSigned, StateT.run_bind, StateT.run_get, Option.bind_eq_bind, Option.pure_def,
+      Option.bind_some, List.cons_append, rByte_run_cons, rHms_complete hh hd hc]
+    rfl
+
+theorem rName_sound {s : Bytes} {n : Bytes} {r : Bytes} (h : rName.run s = some (n, r)) :
+    ∃ b, s = b ++ r ∧ IsName b n := by
+  simp only [rName, StateT.run_bind, StateT.run_get, Option.bind_eq_bind, Option.pure_def,
+    Option.bind_some] at h
+  split at h
+  · rename_i rest
+    split at h
+    · rename_i rest' heq
+      simp at h
+      obtain ⟨rfl, rfl⟩ := h
+      obtain ⟨f1, f2, _⟩ := span_facts (fun x => x != 62) rest
+      rw [heq] at f1
+      refine ⟨[60] ++ List.takeWhile (fun x => x != 62) rest ++ [62], ?_, Or.inr ⟨rfl, ?_⟩⟩
+      · simp; exact f1
+      · intro c hc; simpa using f2 c hc
+    · simp at h
+  · by_cases he : (List.takeWhile isAsciiAlphabetic s).isEmpty = true
+    · simp [he] at h
+    · simp [he] at h
+      obtain ⟨rfl, rfl⟩ := h
+      obtain ⟨f1, f2, _⟩ := span_facts isAsciiAlphabetic s
+      exact ⟨_, f1, Or.inl ⟨rfl, by simpa using he, f2⟩⟩
+
+theorem rName_complete {b : Bytes} {n : Bytes} {r : Bytes} (h : IsName b n)
+    (ha : NoHead isAsciiAlphabetic r) : rName.run (b ++ r) = some (n, r) := by
+  rcases h with ⟨rfl, hne, hal⟩ | ⟨rfl, hq⟩
+  · obtain ⟨h1, h2⟩ := takeWhile_append_stop _ b r hal ha
+    simp only [rName, StateT.run_bind, StateT.run_get, Option.bind_eq_bind, Option.pure_def,
+      Option.bind_some]
+    split
+    · rename_i rest heq
+      cases b with
+      | nil => exact absurd rfl hne
+      | cons c b' =>
+        simp only [List.cons_append, List.cons.injEq] at heq
+        have := hal c (by simp)
+        rw [heq.1] at this
+        simp [isAsciiAlphabetic] at this
+    · simp [h1, h2, hne]
+  · have hq' : ∀ c ∈ n, (fun x => x != 62) c = true := by
+      intro c hc; simpa using hq c hc
+    have hr : NoHead (fun x => x != 62) (62 :: r) := by simp
+    obtain ⟨h1, h2⟩ := takeWhile_append_stop _ n (62 :: r) hq' hr
+    have e : [60] ++ n ++ [62] ++ r = 60 :: (n ++ 62 :: r) := by simp
+    simp only [e, rName, StateT.run_bind, StateT.run_get, Option.bind_eq_bind, Option.pure_def,
+      Option.bind_some, h1, h2]
+    simp
+
+theorem noDigit_46 (r : Bytes) : NoHead isAsciiDigit (46 :: r) := by simp [isAsciiDigit]
+
+theorem rDay_sound {s : Bytes} {d : DayAst} {r : Bytes} (h : rDay.run s = some (d, r)) :
+    ∃ b, s = b ++ r ∧ IsDay b d := by
+  simp only [rDay, StateT.run_bind, StateT.run_get, Option.bind_eq_bind, Option.pure_def,
+    Option.bind_some] at h
+  split at h
+  · rename_i s1
+    simp only [StateT.run_bind, rByte_run_cons, Option.bind_eq_bind, Option.bind_some] at h
+    rw [Option.bind_eq_some_iff] at h
+    obtain ⟨⟨n, s2⟩, h1, h⟩ := h
+    obtain ⟨bn, rfl, hn, _⟩ := rNum_sound h1
+    simp only [StateT.run_pure, Option.pure_def, Option.some.injEq, Prod.mk.injEq] at h
+    obtain ⟨rfl, rfl⟩ := h
+    exact ⟨74 :: bn, rfl, bn, rfl, hn⟩
+  · rename_i s1
+    simp only [StateT.run_bind, rByte_run_cons, Option.bind_eq_bind, Option.bind_some] at h
+    rw [Option.bind_eq_some_iff] at h
+    obtain ⟨⟨n1, s2⟩, h1, h⟩ := h
+    obtain ⟨b1, rfl, hn1, _⟩ := rNum_sound h1
+    simp only at h
+    rw [Option.bind_eq_some_iff] at h
+    obtain ⟨⟨u, s3⟩, h2, h⟩ := h
+    have := rByte_sound h2
+    subst this
+    simp only at h
+    rw [Option.bind_eq_some_iff] at h
+    obtain ⟨⟨n2, s4⟩, h3, h⟩ := h
+    obtain ⟨b2, rfl, hn2, _⟩ := rNum_sound h3
+    simp only at h
+    rw [Option.bind_eq_some_iff] at h
+    obtain ⟨⟨u', s5⟩, h4, h⟩ := h
+    have := rByte_sound h4
+    subst this
+    simp only at h
+    rw [Option.bind_eq_some_iff] at h
+    obtain ⟨⟨n3, s6⟩, h5, h⟩ := h
+    obtain ⟨b3, rfl, hn3, _⟩ := rNum_sound h5
+    simp only [StateT.run_pure, Option.pure_def, Option.some.injEq, Prod.mk.injEq] at h
+    obtain ⟨rfl, rfl⟩ := h
+    exact ⟨[77] ++ b1 ++ [46] ++ b2 ++ [46] ++ b3, by simp, b1, b2, b3, rfl, hn1, hn2, hn3⟩
+  · simp only [StateT.run_bind, Option.bind_eq_bind] at h
+    rw [Option.bind_eq_some_iff] at h
+    obtain ⟨⟨n, s2⟩, h1, h⟩ := h
+    obtain ⟨bn, rfl, hn, _⟩ := rNum_sound h1
+    simp only [StateT.run_pure, Option.pure_def, Option.some.injEq, Prod.mk.injEq] at h
+    obtain ⟨rfl, rfl⟩ := h
+    exact ⟨bn, rfl, hn⟩
+
+theorem rDay_complete {b : Bytes} {d : DayAst} {r : Bytes} (h : IsDay b d)
+    (hd : NoHead isAsciiDigit r) : rDay.run (b ++ r) = some (d, r) := by
+  cases d with
+  | j n =>
+    obtain ⟨bn, rfl, hn⟩ := h
+    simp only [rDay, StateT.run_bind, StateT.run_get, Option.bind_eq_bind, Option.pure_def,
+      Option.bind_some, List.cons_append, rByte_run_cons, rNum_complete hn hd]
+    rfl
+  | m mo w wd =>
+    obtain ⟨b1, b2, b3, rfl, h1, h2, h3⟩ := h
+    have e : [77] ++ b1 ++ [46] ++ b2 ++ [46] ++ b3 ++ r = 77 :: (b1 ++ 46 :: (b2 ++ 46 :: (b3 ++ r))) := by
+      simp
+    simp only [e, rDay, StateT.run_bind, StateT.run_get, Option.bind_eq_bind, Option.pure_def,
+      Option.bind_some, rByte_run_cons, rNum_complete h1 (noDigit_46 _),
+      rNum_complete h2 (noDigit_46 _), rNum_complete h3 hd]
+    rfl
+  | z n =>
+    have hn : IsNum b n := h
+    obtain ⟨c, b', rfl, hcd⟩ := isNum_head hn
+    simp only [rDay, StateT.run_bind, StateT.run_get, Option.bind_eq_bind, Option.pure_def,
+      Option.bind_some, List.cons_append]
+    split
+    · rename_i heq
+      simp only [List.cons.injEq] at heq
+      obtain ⟨rfl, _⟩ := heq
+      simp [isAsciiDigit] at hcd
+    · rename_i heq
+      simp only [List.cons.injEq] at heq
+      obtain ⟨rfl, _⟩ := heq
+      simp [isAsciiDigit] at hcd
+    · rw [← List.cons_append]
+      simp only [StateT.run_bind, rNum_complete hn hd, Option.bind_eq_bind, Option.bind_some]
+      rfl
+
+theorem noDigit_47 (r : Bytes) : NoHead isAsciiDigit (47 :: r) := by simp [isAsciiDigit]
+
+theorem rRule_sound {s : Bytes} {x : RuleAst} {r : Bytes} (h : rRule.run s = some (x, r)) :
+    ∃ b, s = b ++ r ∧ IsRule true b x := by
+  simp only [rRule, StateT.run_bind, StateT.run_get, Option.bind_eq_bind, Option.pure_def,
+    Option.bind_some] at h
+  rw [Option.bind_eq_some_iff] at h
+  obtain ⟨⟨d, s1⟩, h1, h⟩ := h
+  obtain ⟨bd, rfl, hd⟩ := rDay_sound h1
+  simp only at h
+  split at h
+  · rename_i s2
+    simp only [StateT.run_bind, rByte_run_cons, Option.bind_eq_bind, Option.bind_some] at h
+    rw [Option.bind_eq_some_iff] at h
+    obtain ⟨⟨t, s3⟩, h2, h⟩ := h
+    obtain ⟨bt, rfl, ht, _⟩ := rSigned_sound h2
+    simp only [StateT.run_pure, Option.pure_def, Option.some.injEq, Prod.mk.injEq] at h
+    obtain ⟨rfl, rfl⟩ := h
+    exact ⟨bd ++ [47] ++ bt, by simp, Or.inr ⟨bd, bt, t, rfl, rfl, hd, ht, by simp⟩⟩
+  · simp only [StateT.run_pure, Option.pure_def, Option.some.injEq, Prod.mk.injEq] at h
+    obtain ⟨rfl, rfl⟩ := h
+    exact ⟨bd, rfl, Or.inl ⟨rfl, hd⟩⟩
+
+theorem rRule_complete {ext : Bool} {b : Bytes} {x : RuleAst} {r : Bytes} (h : IsRule ext b x)
+    (hd : NoHead isAsciiDigit r) (hc : NoHead (· == 58) r) (hs : NoHead (· == 47) r) :
+    rRule.run (b ++ r) = some (x, r) := by
+  obtain ⟨d, tm⟩ := x
+  rcases h with ⟨ht, hday⟩ | ⟨bd, bt, t, ht, rfl, hday, htm, _⟩
+  · simp only at ht hday
+    subst ht
+    simp only [rRule, StateT.run_bind, StateT.run_get, Option.bind_eq_bind, Option.pure_def,
+      Option.bind_some, rDay_complete hday hd]
+    split
+    · simp at hs
+    · rfl
+  · simp only at ht hday
+    subst ht
+    have e : bd ++ [47] ++ bt ++ r = bd ++ 47 :: (bt ++ r) := by simp
+    simp only [e, rRule, StateT.run_bind, StateT.run_get, Option.bind_eq_bind, Option.pure_def,
+      Option.bind_some, rDay_complete hday (noDigit_47 _), rByte_run_cons,
+      rSigned_complete htm hd hc]
+    rfl
+
+/-- the sequencing part of `readTz` -/
+def pTz : R TzAst := do
+  let name ← rName
+  let offset ← rSigned
+  match (← get) with
+  | [] => pure { name, offset, dst := none }
+  | _ =>
+    let dn ← rName
+    let doff ← (match (← get) with
+      | 44 :: _ => pure none
+      | _ => do let o ← rSigned; pure (some o))
+    rByte 44
+    let r1 ← rRule
+    rByte 44
+    let r2 ← rRule
+    pure { name, offset, dst := some { name := dn, offset := doff, start := r1, stop := r2 } }
+
+/-- the sign filter of `readTz` -/
+def signOk (ext : Bool) (r : RuleAst) : Bool :=
+  ext || (match r.time with | some x => x.sign.isNone | none => true)
+
+theorem readTz_eq (ext : Bool) (b : Bytes) :
+    readTz ext b = match pTz.run b with
+      | some (t, []) =>
+        (match t.dst with
+        | some d => if signOk ext d.start && signOk ext d.stop then some t else none
+        | none => some t)
+      | _ => none := rfl
+
+theorem pTz_sound {s : Bytes} {t : TzAst} {r : Bytes} (h : pTz.run s = some (t, r)) :
+    ∃ b, s = b ++ r ∧ Sentence true b t := by
+  simp only [pTz, StateT.run_bind, StateT.run_get, Option.bind_eq_bind, Option.pure_def,
+    Option.bind_some] at h
+  rw [Option.bind_eq_some_iff] at h
+  obtain ⟨⟨n, s1⟩, h1, h⟩ := h
+  obtain ⟨bn, rfl, hn⟩ := rName_sound h1
+  simp only at h
+  rw [Option.bind_eq_some_iff] at h
+  obtain ⟨⟨o, s2⟩, h2, h⟩ := h
+  obtain ⟨bo, rfl, ho, _⟩ := rSigned_sound h2
+  simp only at h
+  split at h
+  · simp only [StateT.run_pure, Option.pure_def, Option.some.injEq, Prod.mk.injEq] at h
+    obtain ⟨rfl, rfl⟩ := h
+    exact ⟨bn ++ bo, by simp, bn, bo, hn, ho, Or.inl ⟨rfl, rfl⟩⟩
+  · simp only [StateT.run_bind, Option.bind_eq_bind] at h
+    rw [Option.bind_eq_some_iff] at h
+    obtain ⟨⟨dn, s3⟩, h3, h⟩ := h
+    obtain ⟨bdn, rfl, hdn⟩ := rName_sound h3
+    simp only [StateT.run_get, Option.pure_def, Option.bind_some] at h
+    rw [Option.bind_eq_some_iff] at h
+    obtain ⟨⟨doff, s4⟩, h4, h⟩ := h
+    simp only at h
+    rw [Option.bind_eq_some_iff] at h
+    obtain ⟨⟨u1, s5⟩, h5, h⟩ := h
+    have := rByte_sound h5
+    subst this
+    simp only at h
+    rw [Option.bind_eq_some_iff] at h
+    obtain ⟨⟨r1, s6⟩, h6, h⟩ := h
+    obtain ⟨b1, rfl, hr1⟩ := rRule_sound h6
+    simp only at h
+    rw [Option.bind_eq_some_iff] at h
+    obtain ⟨⟨u2, s7⟩, h7, h⟩ := h
+    have := rByte_sound h7
+    subst this
+    simp only at h
+    rw [Option.bind_eq_some_iff] at h
+    obtain ⟨⟨r2, s8⟩, h8, h⟩ := h
+    obtain ⟨b2, rfl, hr2⟩ := rRule_sound h8
+    simp only [StateT.run_pure, Option.pure_def, Option.some.injEq, Prod.mk.injEq] at h
+    obtain ⟨rfl, rfl⟩ := h
+    have key : ∃ bdo, s3 = bdo ++ 44 :: (b1 ++ 44 :: (b2 ++ s8)) ∧
+        ((doff = none ∧ bdo = []) ∨ (∃ o, doff = some o ∧ IsSigned bdo o)) := by
+      split at h4
+      · simp only [StateT.run_pure, Option.pure_def, Option.some.injEq, Prod.mk.injEq] at h4
+        obtain ⟨rfl, h4⟩ := h4
+        exact ⟨[], h4, Or.inl ⟨rfl, rfl⟩⟩
+      · simp only [StateT.run_bind, Option.bind_eq_bind] at h4
+        rw [Option.bind_eq_some_iff] at h4
+        obtain ⟨⟨o', s9⟩, h9, h4⟩ := h4
+        obtain ⟨bdo, rfl, hdo, _⟩ := rSigned_sound h9
+        simp only [StateT.run_pure, Option.pure_def, Option.some.injEq, Prod.mk.injEq] at h4
+        obtain ⟨rfl, rfl⟩ := h4
+        exact ⟨bdo, rfl, Or.inr ⟨o', rfl, hdo⟩⟩
+    obtain ⟨bdo, rfl, hdo⟩ := key
+    refine ⟨bn ++ bo ++ bdn ++ bdo ++ [44] ++ b1 ++ [44] ++ b2, by simp, bn, bo, hn, ho, Or.inr ?_⟩
+    exact ⟨_, bdn, bdo, b1, b2, rfl, rfl, hdn, hdo, hr1, hr2⟩
+
+theorem signedHead_noAlpha {c : Nat} (h : c = 43 ∨ c = 45 ∨ isAsciiDigit c = true) :
+    isAsciiAlphabetic c = false ∧ c ≠ 44 := by
+  rcases h with rfl | rfl | h
+  · decide
+  · decide
+  · simp [isAsciiDigit] at h
+    constructor
+    · simp [isAsciiAlphabetic]; omega
+    · omega
+
+theorem isSigned_noAlpha {b : Bytes} {x : Signed} (h : IsSigned b x) (r : Bytes) :
+    NoHead isAsciiAlphabetic (b ++ r) := by
+  obtain ⟨c, b', rfl, hc⟩ := isSigned_head h
+  simp [(signedHead_noAlpha hc).1]
+
+theorem isName_head {b n : Bytes} (h : IsName b n) :
+    ∃ c b', b = c :: b' ∧ isAsciiDigit c = false ∧ c ≠ 58 := by
+  rcases h with ⟨rfl, hne, hal⟩ | ⟨rfl, _⟩
+  · cases b with
+    | nil => exact absurd rfl hne
+    | cons c b' =>
+      have := hal c (by simp)
+      refine ⟨c, b', rfl, ?_, ?_⟩
+      · simp [isAsciiAlphabetic] at this; simp [isAsciiDigit]; omega
+      · rintro rfl; simp [isAsciiAlphabetic] at this
+  · exact ⟨60, _, by simp; rfl, by decide, by decide⟩
+
+theorem pTz_complete {ext : Bool} {b : Bytes} {t : TzAst} (h : Sentence ext b t) :
+    pTz.run b = some (t, []) := by
+  obtain ⟨n, o, dst⟩ := t
+  obtain ⟨bn, bo, hn, ho, h⟩ := h
+  simp only at hn ho h
+  rcases h with ⟨rfl, rfl⟩ | ⟨d, bdn, bdo, b1, b2, rfl, rfl, hdn, hdo, hr1, hr2⟩
+  · have e : bn ++ bo = bn ++ (bo ++ []) := by simp
+    simp only [e, pTz, StateT.run_bind, StateT.run_get, Option.bind_eq_bind, Option.pure_def,
+      Option.bind_some, rName_complete hn (isSigned_noAlpha ho _),
+      rSigned_complete ho (noHead_nil _) (noHead_nil _)]
+    rfl
+  · obtain ⟨dn, doff, r1, r2⟩ := d
+    simp only at hdn hdo hr1 hr2
+    obtain ⟨c, bdn', rfl, hc1, hc2⟩ := isName_head hdn
+    have e : bn ++ bo ++ (c :: bdn') ++ bdo ++ [44] ++ b1 ++ [44] ++ b2 =
+        bn ++ (bo ++ ((c :: bdn') ++ (bdo ++ 44 :: (b1 ++ 44 :: (b2 ++ []))))) := by simp
+    have hd2 : NoHead isAsciiDigit ((c :: bdn') ++ (bdo ++ 44 :: (b1 ++ 44 :: (b2 ++ [])))) := by
+      simp [hc1]
+    have hc2' : NoHead (· == 58) ((c :: bdn') ++ (bdo ++ 44 :: (b1 ++ 44 :: (b2 ++ [])))) := by
+      simp [hc2]
+    have ha3 : NoHead isAsciiAlphabetic (bdo ++ 44 :: (b1 ++ 44 :: (b2 ++ []))) := by
+      rcases hdo with ⟨_, rfl⟩ | ⟨o', _, ho'⟩
+      · simp [isAsciiAlphabetic]
+      · exact isSigned_noAlpha ho' _
+    simp only [e, pTz, StateT.run_bind, StateT.run_get, Option.bind_eq_bind, Option.pure_def,
+      Option.bind_some, rName_complete hn (isSigned_noAlpha ho _),
+      rSigned_complete ho hd2 hc2', rName_complete hdn ha3]
+    split
+    · rename_i heq; simp at heq
+    · rcases hdo with ⟨rfl, rfl⟩ | ⟨o', rfl, ho'⟩
+      · simp only [List.nil_append] at ha3
+        simp only [StateT.run_bind, StateT.run_get, Option.bind_eq_bind, Option.pure_def,
+          Option.bind_some, List.nil_append, rName_complete hdn ha3, StateT.run_pure,
+          rByte_run_cons,
+          rRule_complete hr1 (r := 44 :: (b2 ++ [])) (by simp [isAsciiDigit]) (by simp) (by simp),
+          rRule_complete hr2 (noHead_nil _) (noHead_nil _) (noHead_nil _)]
+      · obtain ⟨c', bdo', rfl, hc'⟩ := isSigned_head ho'
+        have h44 := (signedHead_noAlpha hc').2
+        simp only [StateT.run_bind, StateT.run_get, Option.bind_eq_bind, Option.pure_def,
+          Option.bind_some, rName_complete hdn ha3]
+        split
+        · rename_i heq
+          simp only [List.cons_append, List.cons.injEq] at heq
+          exact absurd heq.1 h44
+        · simp only [StateT.run_bind, StateT.run_get, Option.bind_eq_bind, Option.pure_def,
+            Option.bind_some, StateT.run_pure, rByte_run_cons,
+            rSigned_complete ho' (r := 44 :: (b1 ++ 44 :: (b2 ++ []))) (by simp [isAsciiDigit]) (by simp),
+            rRule_complete hr1 (r := 44 :: (b2 ++ [])) (by simp [isAsciiDigit]) (by simp) (by simp),
+            rRule_complete hr2 (noHead_nil _) (noHead_nil _) (noHead_nil _)]
+
+theorem isRule_ext (ext : Bool) (b : Bytes) (x : RuleAst) :
+    IsRule ext b x ↔ IsRule true b x ∧ signOk ext x = true := by
+  obtain ⟨d, tm⟩ := x
+  constructor
+  · rintro (⟨ht, hd⟩ | ⟨bd, bt, t, ht, rfl, hd, hs, he⟩)
+    · simp only at ht; subst ht
+      exact ⟨Or.inl ⟨rfl, hd⟩, by simp [signOk]⟩
+    · simp only at ht; subst ht
+      refine ⟨Or.inr ⟨bd, bt, t, rfl, rfl, hd, hs, by simp⟩, ?_⟩
+      cases ext with
+      | true => simp [signOk]
+      | false => simp [signOk, he rfl]
+  · rintro ⟨⟨ht, hd⟩ | ⟨bd, bt, t, ht, rfl, hd, hs, _⟩, hk⟩
+    · exact Or.inl ⟨ht, hd⟩
+    · simp only at ht; subst ht
+      refine Or.inr ⟨bd, bt, t, rfl, rfl, hd, hs, ?_⟩
+      rintro rfl
+      simpa [signOk] using hk
+
+theorem sentence_ext (ext : Bool) (b : Bytes) (t : TzAst) :
+    Sentence ext b t ↔
+      Sentence true b t ∧ ∀ d, t.dst = some d → signOk ext d.start = true ∧ signOk ext d.stop = true := by
+  constructor
+  · rintro ⟨bn, bo, hn, ho, ⟨hdst, rfl⟩ | ⟨d, bdn, bdo, b1, b2, hdst, rfl, hdn, hdo, hr1, hr2⟩⟩
+    · exact ⟨⟨bn, bo, hn, ho, Or.inl ⟨hdst, rfl⟩⟩, by simp [hdst]⟩
+    · rw [isRule_ext] at hr1 hr2
+      refine ⟨⟨bn, bo, hn, ho, Or.inr ⟨d, bdn, bdo, b1, b2, hdst, rfl, hdn, hdo, hr1.1, hr2.1⟩⟩, ?_⟩
+      intro d' hd'
+      rw [hdst] at hd'
+      cases hd'
+      exact ⟨hr1.2, hr2.2⟩
+  · rintro ⟨⟨bn, bo, hn, ho, ⟨hdst, rfl⟩ | ⟨d, bdn, bdo, b1, b2, hdst, rfl, hdn, hdo, hr1, hr2⟩⟩, hk⟩
+    · exact ⟨bn, bo, hn, ho, Or.inl ⟨hdst, rfl⟩⟩
+    · obtain ⟨k1, k2⟩ := hk d hdst
+      exact ⟨bn, bo, hn, ho, Or.inr ⟨d, bdn, bdo, b1, b2, hdst, rfl, hdn, hdo,
+        (isRule_ext ext b1 d.start).2 ⟨hr1, k1⟩, (isRule_ext ext b2 d.stop).2 ⟨hr2, k2⟩⟩⟩
+
+end TzReader
+open TzReader
+
 /-- the executable reference reader and the declarative grammar define the same relation
     (in particular the grammar is unambiguous: a byte string has at most one syntax tree) -/
 theorem readTz_iff_sentence (ext : Bool) (b : Bytes) (t : Spec.TzAst) :
     Spec.readTz ext b = some t ↔ Spec.Sentence ext b t := by
-  sorry
+  rw [readTz_eq, sentence_ext]
+  constructor
+  · intro h
+    split at h
+    · rename_i t' hrun
+      obtain ⟨b', hb, hs⟩ := pTz_sound hrun
+      simp only [List.append_nil] at hb
+      subst hb
+      split at h
+      · rename_i d hd
+        split at h
+        · rename_i hk
+          cases h
+          simp only [Bool.and_eq_true] at hk
+          refine ⟨hs, ?_⟩
+          intro d' hd'
+          rw [hd] at hd'
+          cases hd'
+          exact hk
+        · cases h
+      · rename_i hd
+        cases h
+        exact ⟨hs, by simp [hd]⟩
+    · cases h
+  · rintro ⟨hs, hk⟩
+    rw [pTz_complete hs]
+    simp only
+    split
+    · rename_i d hd
+      obtain ⟨k1, k2⟩ := hk d hd
+      simp [k1, k2]
+    · rfl
 
 end TzVerif.Proofs
